@@ -574,6 +574,34 @@ func init() {
 			}
 			return IfaceV{t: t, v: v}
 		}
+		// vfHasPosField(node, p): some token.Pos-typed field of the struct node points to holds p
+		ex.intr["vf:vfHasPosField"] = func(ex *Exec, fr *Frame, a []Value) Value {
+			iv := a[0].(IfaceV)
+			p := a[1].(*Term)
+			r := tf.Bool(false)
+			if iv.t == nil {
+				return r
+			}
+			pt, ok := iv.t.Underlying().(*types.Pointer)
+			if !ok {
+				return r
+			}
+			st, ok := pt.Elem().Underlying().(*types.Struct)
+			if !ok {
+				return r
+			}
+			ptr := iv.v.(PtrV)
+			if ptr.obj == nil {
+				return r
+			}
+			sv := ex.loadRaw(ptr).(*StructV)
+			for i := 0; i < st.NumFields(); i++ {
+				if st.Field(i).Type().String() == "go/token.Pos" {
+					r = tf.Or(r, tf.Eq(sv.fields[i].(*Term), p))
+				}
+			}
+			return r
+		}
 		ex.intr["vf:vfIsNil"] = func(ex *Exec, fr *Frame, a []Value) Value {
 			iv := a[0].(IfaceV)
 			if iv.t == nil {
